@@ -620,7 +620,7 @@ fn schedules(run: &Run, level: usize, bound: usize, wall_cap: f64, t0: Instant) 
         splits: vec![],
         with_roots: false,
         with_client: false,
-        with_rewind_state: false,
+        with_rewind_state: false, with_witness: false,
         free_scans: false,
         segment_scans: false,
         max_run: usize::MAX,
@@ -741,7 +741,7 @@ pub fn replay(kind: &str, case: &Value) -> Result<(), String> {
         "schedule" | "inline" => {
             let level = case["level"].as_u64().unwrap_or(0) as usize;
             let u = batchy(level);
-            let cfg = graph::Cfg { retention: 4, max_rewinds: 0, max_depth: 0, check_balance: true, check_trees: false, check_queue: false, wall_cap_s: 0.0, state_cap: 0, tips: vec![], rewind_heights: vec![], splits: vec![], with_roots: false, with_client: false, with_rewind_state: false, free_scans: false, segment_scans: false, max_run: usize::MAX, witness_subset: 0 };
+            let cfg = graph::Cfg { retention: 4, max_rewinds: 0, max_depth: 0, check_balance: true, check_trees: false, check_queue: false, wall_cap_s: 0.0, state_cap: 0, tips: vec![], rewind_heights: vec![], splits: vec![], with_roots: false, with_client: false, with_rewind_state: false, with_witness: false, free_scans: false, segment_scans: false, max_run: usize::MAX, witness_subset: 0 };
             let cx = graph::Ctx { u: &u, cfg: &cfg, fresh: vec![graph::FreshRef::default()] };
             let mut w = db::new_wallet(&u, 4, false);
             scan_cached_blocks(&u.network, &u.source(0), &mut w.db, BlockHeight::from_u32(FIRST), &u.genesis, 1).expect("setup scan");
